@@ -151,8 +151,13 @@ def r11b(ctx, run):
     good = False
     if vl and vl[0]["init"].get("k") == "match":
         tbl = {synq.last_seg(h): canon(b) for h, p, g, b, a in synq.match_table(vl[0]["init"])}
-        good = ("sub_ty.into()" in tbl.get("Optional", "") and "Ty::Nil" in tbl.get("Optional", "") and "error_ty.into()" in tbl.get("ErrorUnion", "") and
-                "payload_ty.into()" in tbl.get("ErrorUnion", "") and "variants.iter().map(" in tbl.get("Enum", ""))
+        import re as _re
+        def elems(txt):
+            mm = _re.search(r"vec!\((.*)\)", txt)
+            return [x.strip() for x in mm.group(1).split(",")] if mm else []
+        opt, eu = elems(tbl.get("Optional", "")), elems(tbl.get("ErrorUnion", ""))
+        good = (len(opt) == 2 and "sub_ty" in opt[0] and "Ty::Nil" in opt[1] and len(eu) == 2 and "error_ty" in eu[0] and "payload_ty" in eu[1]
+                and "variants.iter().map(" in tbl.get("Enum", ""))
     run.check(good, inf.site(vl[0]["ln"] if vl else arm["ln"]), "variant list = {sub, nil} | {error, payload} | all enum variants", F, "variant-list", inf.file, vl[0]["ln"] if vl else arm["ln"],
               "the list of variants to cover must contain every variant of the optional / error union / enum")
     # matches_arm compares the right things
